@@ -1,6 +1,6 @@
 \* intended (BEGIN IMMEDIATE in the structure check), 2 processes, fresh database, same text
 CONSTANTS Procs = {1,2} SameText = TRUE InitModels = "absent" InitMeta = "absent" InitRows = {}
-  TouchOnHit = TRUE SharedInited = FALSE DeferredSchemaTxn = FALSE
+  TouchOnHit = TRUE SharedInited = FALSE LockedCountsAsCorrupt = FALSE AllowTimeout = FALSE DeferredSchemaTxn = FALSE
 INIT Init
 NEXT Next
 VIEW View
